@@ -83,6 +83,11 @@ CHECKS = {
             "and that the shift model covers every pin. Reports the stale-pin-offset defect of the pinned tree as a known finding.",
             "Trusted: clang 14 front end. Declined: that the shift LP optimum never worsens the value; numeric equality with Circuit::hpwl() (C09).",
             "DESIGN.md 2/C05"),
+    "C06": ("polynomial normal-form comparison of the blend / export / spreading formulas, guard analysis of shortcuts, argument provenance, axis typing, X/Y twin agreement",
+            "Decides the 'exports the documented blend, per axis, centre to corner' clause for all weights accepted by the parameter check, the convex-combination form of the spreading inside a bin, "
+            "same-axis clamping of fixed pins, regularisation before solving, and axis consistency of the global placer (326 functions) including X/Y twin agreement.",
+            "Trusted: clang 14 front end; name-based axis seeds. Declined: containment and finiteness of solver output; absence of errors (floating-point behaviour).",
+            "DESIGN.md 2/C06"),
 }
 
 NOT_APPLICABLE = {
